@@ -322,6 +322,25 @@ func gen(r *rand.Rand, i, n int) Input {
 			}
 			in.Reply = append(in.Reply, &s)
 		}
+		// most services echo the settings they were sent: some of the experiment's own settings come back unchanged (also
+		// when the suggestion remembers another value for them from an earlier round), some with a new value
+		if in.Exp.Algorithm != nil {
+			for _, sp := range in.Exp.Algorithm.Settings {
+				sp := sp
+				switch r.Intn(4) {
+				case 0:
+					in.Reply = append(in.Reply, &KV{Name: sp.Name, Value: sp.Value})
+				case 1:
+					in.Reply = append(in.Reply, &KV{Name: sp.Name, Value: word(r)})
+				}
+			}
+		}
+		if in.Exp.Algorithm != nil && len(in.Exp.Algorithm.Settings) > 0 && maybe(r, 3) {
+			// a setting the service once moved away from its spec value comes back WITH the spec value
+			sp := kit.Pick(r, in.Exp.Algorithm.Settings)
+			in.Sug = append(in.Sug, KV{Name: sp.Name, Value: "moved-" + word(r)})
+			in.Reply = append(in.Reply, &KV{Name: sp.Name, Value: sp.Value})
+		}
 		in.ReplyNoAlgo = maybe(r, 6)
 		if in.ReplyNoAlgo {
 			in.Reply = nil
